@@ -22,11 +22,14 @@ package reflectx
 // ForEachFieldV2 is the combinator under Meta.scanFields. Its callback type carries the scanning contract: while a
 // Meta is being scanned (ghost ScanTarget), an acceptor only ever appends well-formed fields to that Meta.
 
+//   ScanTarget.Offered[v][i]: (ghost) field i of struct value v has been handed to the acceptor during this scan
 //@ functype FieldAcceptor
 //@ property C11
 //@ requires [scanning] ScanTarget != nil && FieldsInv(ScanTarget)
 //@ requires [field-descriptor] field.Type != nil && RTypeOf(value) == field.Type
-//@ assigns ScanTarget.Fields
+//@ assigns ScanTarget.Fields, ScanTarget.Offered
+//@ ensures [scan-acceptors-never-fail] result == nil
+//@ ensures [offers-only-grow] forall(w, reflect.Value, forall(j, int, implies(old(ScanTarget.Offered[w][j]), ScanTarget.Offered[w][j]), ScanTarget.Offered[w][j], old(ScanTarget.Offered[w][j])))
 //@ ensures [fields-inv-kept] FieldsInv(ScanTarget)
 //@ ensures [fields-only-grow] len(ScanTarget.Fields) >= len(old(ScanTarget.Fields)) && forall(k, int, implies(0 <= k && k < len(old(ScanTarget.Fields)), ScanTarget.Fields[k] == old(ScanTarget.Fields[k])))
 
@@ -40,14 +43,20 @@ package reflectx
 //@ requires [typed-value] t != nil && t == RTypeOf(v) && implies(t.Kind() == 22, t.Elem() != nil)
 //@ requires [scanning] ScanTarget != nil && FieldsInv(ScanTarget)
 //@ requires [all-fields] !excludePrivateField
-//@ assigns ScanTarget.Fields
+//@ assigns ScanTarget.Fields, ScanTarget.Offered
 //@ let st = ite(t.Kind() == 22, t.Elem(), t)
+//@ let sv = ite(t.Kind() == 22, RElemVal(v), v)
+//@ ensures [never-fails] result == nil
+//@ ensures [every-field-offered] implies(st.Kind() == 25, forall(j, int, implies(0 <= j && j < RNumField(st), ScanTarget.Offered[sv][j]), ScanTarget.Offered[sv][j]))
+//@ ensures [offers-only-grow] forall(w, reflect.Value, forall(j, int, implies(old(ScanTarget.Offered[w][j]), ScanTarget.Offered[w][j]), ScanTarget.Offered[w][j], old(ScanTarget.Offered[w][j])))
+//@ ghost before call @f: ScanTarget.Offered = store(ScanTarget.Offered, sv, store(ScanTarget.Offered[sv], i, true))
 //@ ensures [fields-inv-kept] FieldsInv(ScanTarget)
 //@ ensures [fields-only-grow] len(ScanTarget.Fields) >= len(old(ScanTarget.Fields)) && forall(k, int, implies(0 <= k && k < len(old(ScanTarget.Fields)), ScanTarget.Fields[k] == old(ScanTarget.Fields[k])))
 //@ ensures [non-struct-skipped] implies(st.Kind() != 25, result == nil && ScanTarget.Fields == old(ScanTarget.Fields))
 //@ loop 1 decreases RNumField(t) - i
 //@ loop 1 invariant [index] 0 <= i && i <= RNumField(t) && t.Kind() == 25 && t == RTypeOf(v) && t != nil
 //@ loop 1 invariant [fields-inv-kept] FieldsInv(ScanTarget)
+//@ loop 1 invariant [offered-so-far] v == sv && forall(j, int, implies(0 <= j && j < i, ScanTarget.Offered[sv][j]), ScanTarget.Offered[sv][j]) && forall(w, reflect.Value, forall(j, int, implies(old(ScanTarget.Offered[w][j]), ScanTarget.Offered[w][j]), ScanTarget.Offered[w][j], old(ScanTarget.Offered[w][j])))
 //@ loop 1 invariant [fields-only-grow] len(ScanTarget.Fields) >= len(old(ScanTarget.Fields)) && forall(k, int, implies(0 <= k && k < len(old(ScanTarget.Fields)), ScanTarget.Fields[k] == old(ScanTarget.Fields[k])))
 
 //@ func isPublicField
